@@ -180,7 +180,7 @@ def draws_needed(c):
 # generation
 # ---------------------------------------------------------------------------------------------
 LETTERS = "abcdefghijklmnopqrstuvwxyzABCDEFGHIJKLMNOPQRSTUVWXYZ0123456789"
-UNI = "äöüßéñ☃λЖ漢字🙂"
+UNI = "äöüßéñ☃λЖ漢字🙂" + "e\u0301" + "\u212b" + "\u1100\u1161" + "o\u0308"
 
 
 def rstr(rng, n, alphabet=LETTERS):
@@ -331,6 +331,16 @@ def matrix():
         # hand-written plaintexts that look like the printed salt:digest form: they are plaintexts and must be hashed on load
         ops = [("new",)]
         colons = ["root:toor", "user:pass", ":", "QUJD:REVG", str_of(dv), "a:b:c"]
+        # not in Unicode normal form C: the secret is its code points as given; the canonically equivalent string is ANOTHER secret
+        nonnfc = ["cafe\u0301-secret", "\u212bngstrom-pw", "\u1100\u1161\u11a8-hangul", "zo\u0308e-passw"]
+        import unicodedata
+        ops2 = [("new",)]
+        for ci, cp in enumerate(nonnfc):
+            how = (["tree"] + FORMATS)[(a + ci) % 6]
+            ops2 += [("assign", cp), ("challenge", cp), ("challenge", unicodedata.normalize("NFC", cp)), ("challenge", cp.encode()),
+                     ("basic",), ("saveload", FORMATS[(a + ci) % 5]), ("challenge", cp), ("challenge", unicodedata.normalize("NFC", cp)),
+                     ("load", cp, how), ("challenge", cp), ("challenge", unicodedata.normalize("NFC", cp))]
+        cases.append(finish({"alg": a, "req": False, "default": nonnfc[a % len(nonnfc)], "ops": ops2, "secrets": list(nonnfc)}))
         for ci, cp in enumerate(colons):
             how = (["tree"] + FORMATS)[(a + ci) % 6]
             ops += [("load", cp, how), ("challenge", cp), ("challenge", cp + "x"), ("python", cp), ("assign", cp), ("challenge", cp)]
